@@ -3,7 +3,7 @@
 use super::common::*;
 use crate::bridge::Bound;
 use crate::cachemc::{self, Env};
-use crate::formulas::{collision_alphabet, templates, Alphabet, Gen, F};
+use crate::formulas::{collision_alphabet, duplicate_templates, templates, Alphabet, Gen, F};
 use crate::nets::NetSpec;
 use crate::oracle::Labels;
 use crate::report::{Report, Violation};
@@ -132,7 +132,7 @@ pub fn run(tier: &str) -> Result<Report, String> {
     let mut rep = Report::new("C04", tier, "model_checking");
     std_assumptions(&mut rep);
     let nets = core_nets(3)?;
-    let (which, a_size, max_len, fam_n): (Vec<&str>, usize, usize, usize) = if tier == "quick" { (vec!["con2", "asy2", "imp1"], 12, 2, 2) } else { (vec!["con2", "asy2", "imp1", "unc2", "tog2", "inp2"], 24, 3, 3) };
+    let (which, a_size, max_len, fam_n): (Vec<&str>, usize, usize, usize) = if tier == "quick" { (vec!["con2", "asy2", "imp1"], 12, 2, 2) } else { (vec!["con2", "asy2", "imp1", "unc2", "tog2", "inp2"], 26, 3, 3) };
     for b in nets.iter().filter(|b| which.contains(&b.name.as_str())) {
         sem::note_network(&mut rep, b);
         let fams = label_families(b, 4);
@@ -147,8 +147,8 @@ pub fn run(tier: &str) -> Result<Report, String> {
             run_model(&mut rep, ctx.clone(), &alpha, max_len, "collision");
             if tier != "quick" && b.name == "con2" && desc == "mixed" {
                 // deeper batches over a 6-formula core alphabet
-                let core: Vec<F> = [0usize, 2, 3, 7, 11, 5].iter().map(|i| alpha[*i].clone()).collect();
-                run_model(&mut rep, ctx.clone(), &core, 4, "core6-len4");
+                let core: Vec<F> = [0usize, 2, 3, 7, 11, 5, 13].iter().map(|i| alpha[*i].clone()).collect();
+                run_model(&mut rep, ctx.clone(), &core, 4, "core7-len4");
             }
         }
     }
@@ -161,6 +161,7 @@ pub fn run(tier: &str) -> Result<Report, String> {
             let mut fs = templates(&ctx.user, true, if tier == "quick" { 3 } else { 8 });
             let mut g = Gen::new(Alphabet::extended(ctx.nprops(), 2, 1, 2));
             fs.extend(g.closed_up_to(if tier == "quick" { 3 } else { 4 }));
+            fs.extend(duplicate_templates(ctx.nprops(), if tier == "quick" { 4 } else { 5 }, true, true));
             n_single += fs.len() as u64;
             let bad: Vec<Violation> = fs
                 .par_chunks(256)
